@@ -193,6 +193,21 @@ def run_bounded(chk):
         _, verts, faces = base[nm]
         obj = cox.shapes.Polyhedron(np.asarray(verts, float) + np.array([3.0, -2.0, 5.0]), [list(f) for f in faces])
         n_eval += stale.read_mutate_read(obj, measures, f"history:{nm}", hfails)
+    # queries must not influence each other (a memo that one query fills and another one modifies): every ordered pair of
+    # queries on a fresh off-origin object against the same query alone
+    probes = np.array([[0.5, 0.5, 0.5], [1.5, 0.5, 0.5], [0.5, 2.5, 0.5], [1.5, 1.5, 0.5], [9.0, 9.0, 9.0]])
+    qs = np.array([[0.3, -0.2, 0.5], [1.0, 2.0, -1.5]])
+    for nm in ("voxel:U7", "convexcopy:frustum"):
+        _, verts, faces = base[nm]
+        off = np.array([3.0, -2.0, 5.0])
+        getters = {"volume": lambda s: s.volume, "surface_area": lambda s: s.surface_area,
+                   "centroid": lambda s: np.array(s.centroid, float), "inertia_tensor": lambda s: np.array(s.inertia_tensor, float),
+                   "face_areas": lambda s: np.array(s.get_face_area(), float),
+                   "is_inside": lambda s, off=off: np.array(s.is_inside(probes + off)),
+                   "form_factor": lambda s: np.array(s.compute_form_factor_amplitude(qs)),
+                   "to_hoomd": lambda s: np.array(s.to_hoomd()["centroid"], float)}
+        n_eval += stale.read_pairs(lambda verts=verts, faces=faces, off=off: cox.shapes.Polyhedron(np.asarray(verts, float) + off, [list(f) for f in faces]),
+                                   getters, f"queries_in_pairs:{nm}", hfails)
     for nm, info in hfails[:3]:
         n_bad += 1
         chk.record(f"bounded:mesh_measures[{nm}]", fkey, "bounded-fail", "fresh-construction", detail=str(info)[:400], model={},
@@ -204,7 +219,7 @@ def run_bounded(chk):
                   "== exact rational oracle of the closed mesh (relative tolerance 1e-9)",
         "bound": "8 voxel solids (cube, bar, L, U of 7 cubes, C, genus-1 frame of 8, stairs, 3-D T) with unit-square faces; "
                  "5 extruded simple polygons with ear-clipped caps; Polyhedron copies of the named convex solids with <= 12 "
-                 "vertices; 4 meshes also at sizes 1e-5 and 1e4; 4 rigid placements each (offset ~10 sizes, 2 exact rational rotations); 3 objects read, moved / resized / reoriented and re-read",
+                 "vertices; 4 meshes also at sizes 1e-5 and 1e4; 4 rigid placements each (offset ~10 sizes, 2 exact rational rotations); 3 objects read, moved / resized / reoriented and re-read; every ordered pair of 8 queries on 2 fresh off-origin objects against the query alone",
         "evaluations": n_eval, "distinct_nontrivial": len(ms),
         "rule": "distinct = different meshes; non-star-shaped: U7, C5, frame8, stairs, comb; genus 1: frame8",
         "samples": [{"mesh": m[0], "vertices": len(m[1]), "faces": len(m[2])} for m in ms[:3]],
